@@ -22,6 +22,13 @@ Proof.
   unfold mem in *. cbn [existsb]. rewrite H. apply orb_true_r.
 Qed.
 
+(* dropping the index entries of an overwritten frame does not touch the stream partition *)
+Lemma drop_old_stream s f : s_stream (drop_old s f) = s_stream s.
+Proof.
+  unfold drop_old. destruct (get s (f_id f)) as [old|]; [|reflexivity].
+  destruct (same_keys old f); reflexivity.
+Qed.
+
 (* a rejected append leaves no trace at all: no frame, no index entry, no registry
    change, no GC task, no broadcast *)
 Lemma append_err_unchanged s i f e s' :
@@ -69,8 +76,9 @@ Proof.
     unfold insert_frame, insert_frame_gen. cbn [f_topic f_id f_ctx]. rewrite (is_ctx_topic_nonul _ Hc).
     cbn [snd s_ctxs s_stream s_itopic s_ictx s_gcq s_now s_bcast].
     split.
-    + destruct (true && registers _); [apply mem_set_add_mono|]; apply mem_set_add_same.
-    + unfold get. cbn [s_stream].
+    + unfold registers. cbn [f_topic f_ctx]. rewrite Hc. cbn [N.eqb andb].
+      apply mem_set_add_same.
+    + unfold get. rewrite drop_old_stream. cbn [s_stream].
       generalize (s_stream s). intros l. unfold kv_get.
       induction l as [|[k v] l IH]; cbn [kv_put find fst].
       * rewrite bytes_eqb_refl. reflexivity.
